@@ -18,6 +18,12 @@ def build(par, family="Node", names=None, attrs=None):
         nodes = [F.NM(names[i]) for i in range(k)]
     elif family == "LM":
         nodes = [F.LM(names[i]) for i in range(k)]
+    elif family == "VAL":
+        nodes = [F.ValNM(names[i], i % 2) for i in range(k)]
+    elif family == "VALLM":
+        nodes = [F.ValLM(names[i], i % 2) for i in range(k)]
+    elif family == "FALSY":
+        nodes = [F.FalsyNM(names[i], i % 2) for i in range(k)]
     elif family == "MIX":
         nodes = F.make_nodes("MIX", k)
         for i, n in enumerate(nodes):
@@ -38,3 +44,51 @@ def build_ch(ch, family="Node", names=None):
         for c in cs:
             nodes[c].parent = nodes[p]
     return nodes
+
+
+READ_FAMILIES = ("Node", "NM", "LM", "AnyNode", "VAL", "FALSY", "VALLM")
+
+
+def evolving_universe(ctx, rng, fam, k, steps):
+    """One universe of k nodes mutated step by step with random fault-free
+    structural calls; yields (nodes, par, ch, history) after every step (the
+    same node objects throughout, so stale caches inside the library show)."""
+    from . import gen
+    from . import model as M
+    from .props.forest_engine import Engine
+
+    ffam = {"Node": "Node", "AnyNode": "AnyNode", "VAL": "VALNM"}.get(fam, fam)
+    eng = Engine(ctx, (), faults=False)
+    ch0 = gen.random_forest(rng, k)
+    rec = F.Rec(F.materialise(ffam, ch0))
+    hist = []
+    snap = rec.snapshot()
+    yield rec.nodes, [p for p, _ in snap], [list(c) for _, c in snap], {"family": fam, "state": [list(c) for c in ch0], "history": list(hist)}
+    for _ in range(steps):
+        snap = rec.snapshot()
+        call = eng.random_call(rng, k, [p for p, _ in snap], "LM")
+        hist.append(F._jsonable(call))
+        F.run_call(rec, ffam, call, F.NOPLAN, snaps_on=False)
+        snap = rec.snapshot()
+        if M.invariant(snap):
+            return
+        yield rec.nodes, [p for p, _ in snap], [list(c) for _, c in snap], {"family": fam, "state": [list(c) for c in ch0], "history": list(hist)}
+
+
+def replay_universe(case):
+    """Rebuild the universe of a case produced by evolving_universe."""
+    fam = case["family"]
+    ffam = {"Node": "Node", "AnyNode": "AnyNode", "VAL": "VALNM"}.get(fam, fam)
+
+    def tup(x):
+        return tuple(tup(y) for y in x) if isinstance(x, list) else x
+
+    rec = F.Rec(F.materialise(ffam, tup(case["state"])))
+    states = []
+    snap = rec.snapshot()
+    states.append((rec.nodes, [p for p, _ in snap], [list(c) for _, c in snap]))
+    for call in case["history"]:
+        F.run_call(rec, ffam, tup(call), F.NOPLAN, snaps_on=False)
+        snap = rec.snapshot()
+        states.append((rec.nodes, [p for p, _ in snap], [list(c) for _, c in snap]))
+    return states
